@@ -94,6 +94,14 @@ def run(tw, tier, seed, only=None):
             b = nx.relabel_nodes(a, {n: n + 7 for n in a.nodes})
         if rng.random() < 0.2:
             b = nx.disjoint_union(b, rng.choice(graphs))
+        if rng.random() < 0.3:          # atoms relying on the default label '*' vs atoms labelled '*' explicitly
+            a, b = a.copy(), b.copy()
+            for g in (a, b):
+                for n in list(g.nodes)[:2]:
+                    if rng.random() < 0.5:
+                        g.nodes[n].pop("element", None)
+                    else:
+                        g.nodes[n]["element"] = "*"
         cases += 1
         nontriv += check_pair(tw, a, b, fails, {"kind": "pair"})
         if len(samples) < 2:
